@@ -487,7 +487,83 @@ def check_bip38fmt(ctx, case):
         raise Discrepancy('detect.bip38', 'get_key_format(%s) = %r (BIP38 = encrypted private key)' % (s, kf), case)
 
 
-DISPATCH = {'key': check_key, 'hd': check_hd, 'bip38fmt': check_bip38fmt}
+def check_history(ctx, case):
+    """Exports must describe the key's *current* state whatever was exported before (caches): a sequence of
+    exports and documented mutations (network_change) on one object, then every export is compared with the
+    reference encoding for the current network."""
+    from ref import address as A, bip32, ec
+    from bitcoinlib.keys import HDKey, Key
+    sec = int(case['sec'], 16)
+    net = case['net']
+    wt = 'legacy' if net.startswith('dogecoin') else case['wt']
+    try:
+        if case['cls'] == 'HDKey':
+            k = HDKey(sec.to_bytes(32, 'big'), network=net, witness_type=wt, compressed=case['compressed'])
+        else:
+            k = Key(sec.to_bytes(32, 'big'), network=net, compressed=case['compressed'])
+    except Exception as e:
+        ctx.refusal('history.create.%s' % type(e).__name__)
+        return
+    cur = net
+    for op in case['ops']:
+        name = op['op']
+        try:
+            if name == 'wif_plain':
+                got = k.wif_key() if case['cls'] == 'HDKey' else k.wif()
+            elif name == 'wif_prefix':
+                pre = A.prefix_wif(op['net'])
+                got = k.wif_key(prefix=pre) if case['cls'] == 'HDKey' else k.wif(prefix=pre)
+                want = A.wif(sec, op['net'], case['compressed'])
+                if got != want:
+                    raise Discrepancy('history.wif_prefix', 'WIF with explicit prefix of %s: %s want %s' %
+                                      (op['net'], got, want), case)
+                continue
+            elif name == 'network_change':
+                if case['cls'] != 'HDKey':
+                    continue
+                new = op['net']
+                if wt != 'legacy' and new.startswith('dogecoin'):
+                    continue
+                k.network_change(new)
+                cur = new
+                continue
+            elif name == 'address':
+                k.address()
+                continue
+            elif name == 'xkey':
+                if case['cls'] == 'HDKey':
+                    k.wif(is_private=True)
+                continue
+            else:
+                continue
+        except Discrepancy:
+            raise
+        except Exception as e:
+            ctx.refusal('history.%s.%s' % (name, type(e).__name__))
+            continue
+        want = A.wif(sec, cur, case['compressed'])
+        if got != want:
+            raise Discrepancy('history.wif_stale', 'after %r the plain WIF export is %s, the key (network %s) encodes '
+                              'to %s' % ([o['op'] for o in case['ops']], got, cur, want), case)
+    # final: the extended key export carries the current network's prefix
+    if case['cls'] == 'HDKey':
+        try:
+            x = k.wif(is_private=True)
+        except Exception as e:
+            ctx.refusal('history.final_xkey.%s' % type(e).__name__)
+            return
+        ver = A.xkey_version(cur, True, wt, False)
+        if ver is not None:
+            try:
+                v, xk = bip32.parse_xkey(x)
+            except Exception as e:
+                raise Discrepancy('history.xkey_invalid', 'final extended key %s not decodable: %r' % (x, e), case)
+            if v != ver or xk.secret != sec:
+                raise Discrepancy('history.xkey_stale', 'final extended key has version %s secret ok=%s, current '
+                                  'network %s wants version %s' % (v.hex(), xk.secret == sec, cur, ver.hex()), case)
+
+
+DISPATCH = {'key': check_key, 'hd': check_hd, 'bip38fmt': check_bip38fmt, 'history': check_history}
 
 
 def replay(ctx, case):
@@ -723,6 +799,28 @@ def run(ctx):
     else:
         ctx.exhaustive('configuration matrix: 11 networks x 3 witness types x single/multisig x private/public x 8 import '
                        'variants, 11 networks x 2 compressions x WIF import variants, for 2 fixed keys')
+
+    from hypothesis import strategies as hst
+    from vlib import gen as _gen
+    from ref import address as _A
+    nets = hst.sampled_from(_A.NETWORK_NAMES)
+    hop = hst.one_of(hst.just({'op': 'wif_plain'}), hst.just({'op': 'wif_plain'}),
+                     hst.fixed_dictionaries({'op': hst.just('wif_prefix'), 'net': nets}),
+                     hst.fixed_dictionaries({'op': hst.just('network_change'), 'net': nets}),
+                     hst.just({'op': 'address'}), hst.just({'op': 'xkey'}))
+    hist = hst.fixed_dictionaries({'kind': hst.just('history'), 'cls': hst.sampled_from(['HDKey', 'HDKey', 'Key']),
+                                   'sec': _gen.secrets().map(lambda v: '%064x' % v), 'net': nets,
+                                   'wt': hst.sampled_from(['legacy', 'segwit', 'p2sh-segwit']),
+                                   'compressed': hst.sampled_from([True, True, False]),
+                                   'ops': hst.lists(hop, min_size=2, max_size=6)})
+
+    def prop_hist(case):
+        ctx.nt(case)
+        ctx.klass('history')
+        if any(o['op'] == 'network_change' for o in case['ops']):
+            ctx.klass('history.network_change')
+        check_history(ctx, case)
+    ctx.run_given('history', hist, prop_hist, ctx.scale(150, 4000))
 
     def prop_b38(case):
         ctx.nt(case)
